@@ -116,8 +116,66 @@ def check(ctx):
     from . import c05
     c05.check_rewrap(ctx, repo, "C04-R2")
     check_dict_literal(ctx, repo, "C04-R3")
+    _state_inventory(ctx, repo, "C04-R5")
     ctx.rule("C04-R4", "memoised compiled code is built from the text only: no value read from the variable state flows into the IR (shared with C05-R9)")
     c05.check_no_state_in_ir(ctx, repo, "C04-R4")
+
+
+# ------------------------------------------------------------------ R5 every container that outlives an evaluation is a reviewed one
+REVIEWED_MODULE_STATE = {
+    # module-level mutable containers of the evaluation modules that are reviewed (none on the pinned tree)
+}
+
+
+def _state_inventory(ctx, repo, rid="C04-R5"):
+    """Evaluation may depend on the program text and the variable state only.  Everything else that outlives one evaluation is a
+    memo, and each memo needs an argument why a hit equals a recomputation (C04-R2 gives it for the reviewed ones).  This rule makes
+    the list closed: (a) the interpreter / context objects carry no container-valued attribute beyond the reviewed inventory;
+    (b) the evaluation modules hold no module-level container that a function fills."""
+    import json, os
+    ctx.rule(rid, "closed world of memos: no container-valued attribute on KlongInterpreter / KlongContext beyond the reviewed ones, and no module-level container in the evaluation modules that functions write")
+    inv = json.load(open(os.path.join(os.path.dirname(os.path.dirname(os.path.abspath(__file__))), "inventory.json")))
+    is_container = lambda v: isinstance(v, (ast.Dict, ast.List, ast.Set)) or (isinstance(v, ast.Call) and callee_name(v) in (
+        "dict", "list", "set", "OrderedDict", "defaultdict", "deque", "WeakValueDictionary", "WeakKeyDictionary", "LRUCache", "Counter"))
+    for cname in ("KlongInterpreter", "KlongContext"):
+        known = set(inv["attrs"].get(f"interpreter:{cname}", []))
+        ctx.instance(rid, f"interpreter:{cname}")
+        new = []
+        for f in repo.module("interpreter").funcs.values():
+            if f.cls != cname:
+                continue
+            for n in walk_local(f.node):
+                if isinstance(n, (ast.Assign, ast.AnnAssign)) and getattr(n, "value", None) is not None and is_container(n.value):
+                    for t in (n.targets if isinstance(n, ast.Assign) else [n.target]):
+                        if isinstance(t, ast.Attribute) and isinstance(t.value, ast.Name) and t.value.id == "self" and t.attr not in known and t.attr not in repo.renames.get("attributes", {}).values():
+                            new.append((t.attr, n, f))
+        for attr, n, f in new:
+            ctx.ob(rid, f.fq, f"{cname} carries no unreviewed container", False, node=n, construct=f"unreviewed container self.{attr} on {cname}",
+                   msg=f"{cname}.{attr} is a new container that outlives one evaluation (a cache, a look-ahead buffer, a registry): what it holds can make a later evaluation of the same text in the same "
+                       "variable state differ; it needs an invalidation argument like the reviewed memos (C04-R2) before this check can pass")
+        ctx.ob(rid, f"interpreter:{cname}", f"container-valued attributes of {cname} are the reviewed ones ({len(known)} attributes in the inventory)", not new, construct=f"{cname} state inventory")
+    for mod in ("compiler", "interpreter", "types", "dyads", "monads", "adverbs"):
+        m = repo.modules.get(mod)
+        if m is None:
+            continue
+        conts = {t.id: n for n in m.tree.body if isinstance(n, (ast.Assign, ast.AnnAssign)) and getattr(n, "value", None) is not None and is_container(n.value)
+                 for t in (n.targets if isinstance(n, ast.Assign) else [n.target]) if isinstance(t, ast.Name)}
+        for name, n in conts.items():
+            if (mod, name) in REVIEWED_MODULE_STATE:
+                continue
+            writers = []
+            for f in m.funcs.values():
+                for x in walk_local(f.node):
+                    if isinstance(x, ast.Subscript) and isinstance(x.ctx, (ast.Store, ast.Del)) and isinstance(x.value, ast.Name) and x.value.id == name:
+                        writers.append((f, x))
+                    if isinstance(x, ast.Call) and isinstance(x.func, ast.Attribute) and isinstance(x.func.value, ast.Name) and x.func.value.id == name and \
+                            x.func.attr in ("append", "add", "update", "setdefault", "insert", "extend", "pop", "clear", "popitem", "appendleft"):
+                        writers.append((f, x))
+            if writers:
+                f, x = writers[0]
+                ctx.ob(rid, f.fq, f"no function fills a module-level container of `{mod}`", False, node=x, construct=f"module-level container {name} written in {f.name}",
+                       msg=f"`{name}` in klongpy/{mod}.py is a process-wide container that {f.name} writes: a memo shared by every interpreter and every evaluation; equal keys (('literal', 2) == ('literal', 2.0)) "
+                           "or stale entries make evaluation depend on what was evaluated before")
 
 
 # ------------------------------------------------------------------ R2
@@ -354,6 +412,9 @@ MUTATION_SCOPE = ['dyads:eval_dyad_amend',
                   'parser:kg_read']
 
 SEEDS = [
+    Seed("interpreter-grows-a-function-cache", "fault", "interpreter", "        self._compiled_cache = {}\n", "        self._compiled_cache = {}\n        self._fn_cache = {}\n", rule="C04-R5"),
+    Seed("memoised-helper-result-written-in-place", "fault", "backends/numpy_backend", "    def str_to_char_array(self, s):", "    @functools.lru_cache(maxsize=64)\n    def str_to_char_array(self, s):", rule="C04-R1",
+         more=[("backends/numpy_backend", "import numpy as np\n", "import functools\nimport numpy as np\n")]),
     Seed("amend-asarray", "fault", "dyads", "    r = np_backend.array(a) # clone", "    r = np_backend.asarray(a)", rule="C04-R1"),
     Seed("reshape-no-copy", "fault", "dyads", "                a = np_backend.copy(a)\n", "", rule="C04-R1"),
     Seed("amend-in-depth-asarray", "fault", "dyads", "        p = bknp.array(p, dtype=object) if isinstance(v, (str, KGSym)) else bknp.array(p)", "        p = bknp.asarray(p, dtype=object) if isinstance(v, (str, KGSym)) else bknp.array(p)", rule="C04-R1"),
